@@ -79,6 +79,31 @@ def build_corpus(rng, thorough):
                 return (seg.to_er7(EC_SETS[2]), c.to_er7(EC_SETS[2]))
             corpus.append((('build', v, lvl), k, None))
 
+            # a value just beyond the maximum length of the version's ST (999 in v2.6, 199 elsewhere): refused under an
+            # explicit STRICT, kept under an explicit TOLERANT, whatever the default level
+            def ol(v=v, lvl=lvl):
+                ST = hl7apy.load_library(v).get_base_datatypes()['ST']
+                mx = ST('x', validation_level=S.TOLERANT).max_length or 199
+                o = datatype_factory('ST', 'y' * (mx + 1), v, lvl)
+                sc = SubComponent(datatype='ST', value='y' * (mx + 1), version=v, validation_level=lvl)
+                return (type(o).__name__, len(o.to_er7(EC_SETS[0])), len(sc.to_er7(EC_SETS[0])))
+            corpus.append((('overlong-ST', v, lvl), ol, None))
+
+            # a component assigned as text on a field of a message with its own delimiters
+            def ca(v=v, lvl=lvl):
+                e = EC_SETS[1]
+                m = Message('ADT_A01', version=v, validation_level=lvl, encoding_chars=e)
+                pid = m.add_segment('PID')
+                pid.pid_3 = '1'
+                sub = e['SUBCOMPONENT']
+                if v >= '2.3':
+                    pid.pid_3.cx_4 = 'N' + sub + 'u' + sub + 'I'
+                pid.pid_5 = 'D' + e['COMPONENT'] + 'J'
+                comp = pid.pid_5[0].children[0]
+                comp.value = 'F' + sub + 'G' if lvl == S.TOLERANT else 'F'
+                return (pid.to_er7(), [len(c.children) for f in pid.children for c in f.children])
+            corpus.append((('component-text-in-custom-message', v, lvl), ca, None))
+
             def pf(v=v, lvl=lvl):
                 f = parse_field('A^B&C', name='PID_3', version=v, validation_level=lvl, encoding_chars=EC_SETS[0])
                 c = parse_component('X&Y', name='CX_4', datatype='HD', version=v, validation_level=lvl,
